@@ -26,6 +26,7 @@ type editLit struct {
 	op    ssa.Value            // value stored to Op (may be nil: zero)
 	set   map[string]ssa.Value // "X"/"Y" -> stored value
 	pos   token.Pos
+	blk   *ssa.BasicBlock // block of the field stores
 }
 
 func isEditType(t types.Type) bool {
@@ -69,6 +70,7 @@ func editLiterals(fn *ssa.Function) []editLit {
 					if st.Pos().IsValid() {
 						l.pos = st.Pos()
 					}
+					l.blk = st.Block()
 				}
 			}
 		}
@@ -392,6 +394,42 @@ func runC11(c *Ctx) {
 			}
 		}
 	}
+	// the run of kept elements is counted from the offset its Emit span starts at, and no Edit is built
+	// under a boolean that is carried round the loop without ever being cleared
+	ruleEmitRun(c, esf, lhs, rhs)
+	// spans assigned to an edit after it was built (through a pointer into the script) are held to the same
+	// provenance: a span "grown" with append is a copy, not the span of the input
+	for _, f := range closure {
+		f := f
+		nLate := 0
+		allInstrs(f, func(in ssa.Instruction) {
+			st, ok := in.(*ssa.Store)
+			if !ok {
+				return
+			}
+			fa, ok := st.Addr.(*ssa.FieldAddr)
+			if !ok || !isEditType(fa.X.Type()) {
+				return
+			}
+			_, fld := fieldVarOf(fa)
+			if fld == nil || (fld.Name() != "X" && fld.Name() != "Y") {
+				return
+			}
+			switch b := fa.X.(type) {
+			case *ssa.Alloc:
+				if b.Comment == "complit" {
+					return // a literal: judged above
+				}
+			case *ssa.IndexAddr:
+				if al, ok := b.X.(*ssa.Alloc); ok && (al.Comment == "slicelit" || al.Comment == "arraylit") {
+					return
+				}
+			}
+			nLate++
+			c.sawFn(fnName(f))
+			judgeSpan(f, st.Val, fld.Name(), fmt.Sprintf("%s:Edit.%s assigned after construction #%d (origin only)", fnName(f), fld.Name(), nLate), st.Pos(), 0)
+		})
+	}
 	ruleOpTable(c, "slice", "mdiff")
 	ruleOpExhaustive(c, "slice", "mdiff")
 }
@@ -682,65 +720,7 @@ func runC13(c *Ctx) {
 	}
 
 	// (4) the two context spans findContext returns do not share a backing array
-	{
-		c.sawFn(fnName(findCtx))
-		roots := func(idx int) map[ssa.Value]bool {
-			out := map[ssa.Value]bool{}
-			seen := map[ssa.Value]bool{}
-			var walk func(v ssa.Value)
-			walk = func(v ssa.Value) {
-				if v == nil || seen[v] {
-					return
-				}
-				seen[v] = true
-				switch x := v.(type) {
-				case *ssa.Slice:
-					walk(x.X)
-				case *ssa.Phi:
-					for _, e := range x.Edges {
-						walk(e)
-					}
-				case *ssa.ChangeType:
-					walk(x.X)
-				case *ssa.UnOp:
-					if x.Op == token.MUL {
-						if al, ok := x.X.(*ssa.Alloc); ok {
-							for _, r := range referrersOf(al) {
-								if st, ok := r.(*ssa.Store); ok && st.Addr == ssa.Value(al) {
-									walk(st.Val)
-								}
-							}
-							return
-						}
-					}
-					out[v] = true
-				case *ssa.Call:
-					if ap, ok := isBuiltinCall(x, "append"); ok {
-						walk(ap.Call.Args[0])
-						return
-					}
-					out[v] = true
-				case *ssa.Const:
-				default:
-					out[v] = true
-				}
-			}
-			allInstrs(findCtx, func(in ssa.Instruction) {
-				if ret, ok := in.(*ssa.Return); ok && idx < len(ret.Results) {
-					walk(ret.Results[idx])
-				}
-			})
-			return out
-		}
-		r0, r1 := roots(0), roots(1)
-		var shared []string
-		for v := range r0 {
-			if r1[v] {
-				shared = append(shared, ksym(v))
-			}
-		}
-		c.judge(len(shared) == 0, "R-CONTEXT-FRESH", "mdiff.(*Diff).findContext:disjoint results", findCtx.Pos(), "leading and trailing context are separate allocations", "the leading and trailing context spans share a backing array ("+strings.Join(shared, ",")+"): extending one in place (Unify's context merge) overwrites the other")
-	}
+	ruleContextDisjoint(c, findCtx)
 	// (5) Unify edits the chunk's own edit list: stores to Edit fields go through pointers into it, not into local copies
 	{
 		nSt := 0
@@ -827,6 +807,8 @@ func runC13(c *Ctx) {
 	ruleTrimSide(c)
 	ruleBoundSide(c, "mdiff")
 	ruleSiblingGuard(c, "mdiff")
+	ruleUnifyOrder(c)
+	ruleAllocBounded(c, "mdiff", false)
 
 	// ---- R-LR-MIRROR
 	mirror := strings.NewReplacer(".LStart", ".RStart", ".LEnd", ".REnd", "lcur", "rcur", "addl", "addr")
@@ -1738,5 +1720,390 @@ func ruleCursorFamilies(c *Ctx, fn *ssa.Function, lhs, rhs *ssa.Parameter) {
 		} else {
 			c.ok("R-EDIT-SPAN", key, f.Pos(), "indexes the inputs only")
 		}
+	}
+}
+
+// ruleContextDisjoint: the two context spans findContext returns do not share a backing array.
+func ruleContextDisjoint(c *Ctx, findCtx *ssa.Function) {
+	c.sawFn(fnName(findCtx))
+	roots := func(idx int) map[ssa.Value]bool {
+		out := map[ssa.Value]bool{}
+		seen := map[ssa.Value]bool{}
+		var walk func(v ssa.Value)
+		walk = func(v ssa.Value) {
+			if v == nil || seen[v] {
+				return
+			}
+			seen[v] = true
+			switch x := v.(type) {
+			case *ssa.Slice:
+				walk(x.X)
+			case *ssa.Phi:
+				for _, e := range x.Edges {
+					walk(e)
+				}
+			case *ssa.ChangeType:
+				walk(x.X)
+			case *ssa.UnOp:
+				if x.Op == token.MUL {
+					if al, ok := x.X.(*ssa.Alloc); ok {
+						for _, r := range referrersOf(al) {
+							if st, ok := r.(*ssa.Store); ok && st.Addr == ssa.Value(al) {
+								walk(st.Val)
+							}
+						}
+						return
+					}
+				}
+				out[v] = true
+			case *ssa.Call:
+				if ap, ok := isBuiltinCall(x, "append"); ok {
+					walk(ap.Call.Args[0])
+					return
+				}
+				out[v] = true
+			case *ssa.Const:
+			default:
+				out[v] = true
+			}
+		}
+		allInstrs(findCtx, func(in ssa.Instruction) {
+			if ret, ok := in.(*ssa.Return); ok && idx < len(ret.Results) {
+				walk(ret.Results[idx])
+			}
+		})
+		return out
+	}
+	r0, r1 := roots(0), roots(1)
+	var shared []string
+	for v := range r0 {
+		if r1[v] {
+			shared = append(shared, ksym(v))
+		}
+	}
+	c.judge(len(shared) == 0, "R-CONTEXT-FRESH", "mdiff.(*Diff).findContext:disjoint results", findCtx.Pos(), "leading and trailing context are separate allocations", "the leading and trailing context spans share a backing array ("+strings.Join(shared, ",")+"): extending one in place (Unify's context merge) overwrites the other")
+}
+
+// ruleUnifyOrder: two order-of-operations rules on the context merge.
+//
+// R-DROP-GUARDED: removing a whole edit from a chunk's list (list = list[1:] or
+// list[:len-1]) loses its lines unless the overlap is known to cover it — a
+// dominating comparison `… >= len(edit.X)` — or its span has just been appended
+// to another edit.
+//
+// R-JOIN-LAST: once the two boundary context edits have been joined into one
+// (X = append(X, other.X...)), that iteration does not trim a span any more:
+// trimming is defined on the two separate edits, and cutting the joined edit
+// removes lines from the wrong place.
+func ruleUnifyOrder(c *Ctx) {
+	P := c.P
+	c.rule("R-DROP-GUARDED", 1, "an edit is removed from a chunk's list only under a comparison that bounds its length, or after its span has been appended to another edit")
+	c.rule("R-JOIN-LAST", 1, "after the boundary context edits are joined, the same iteration trims no span")
+	unify := P.Func("mdiff", "", "UnifyChunks")
+	chunkT := P.Named("mdiff", "Chunk")
+	if unify == nil || chunkT == nil {
+		c.undecided("ANCHOR", "mdiff.UnifyChunks", 0, "not found")
+		return
+	}
+	var listF *types.Var
+	for _, f := range structFields(chunkT) {
+		if _, ok := f.Type().Underlying().(*types.Slice); ok {
+			listF = f
+		}
+	}
+	editT := P.Named("slice", "Edit")
+	if listF == nil || editT == nil {
+		c.undecided("ANCHOR", "mdiff.Chunk edit list / slice.Edit", 0, "not found")
+		return
+	}
+	isSpanField := func(f *types.Var) bool {
+		if f == nil {
+			return false
+		}
+		_, isSlice := f.Type().Underlying().(*types.Slice)
+		if !isSlice {
+			return false
+		}
+		for _, g := range structFields(editT) {
+			if sameField(f, g) {
+				return true
+			}
+		}
+		return false
+	}
+	// join: store span ← append(load span of the same edit, load span of another edit...)
+	isJoin := func(in ssa.Instruction) bool {
+		st, ok := in.(*ssa.Store)
+		if !ok {
+			return false
+		}
+		fa, ok := st.Addr.(*ssa.FieldAddr)
+		if !ok {
+			return false
+		}
+		if _, f := fieldVarOf(fa); !isSpanField(f) {
+			return false
+		}
+		ap, ok := isBuiltinCall(st.Val, "append")
+		if !ok || len(ap.Call.Args) != 2 {
+			return false
+		}
+		_, f1 := loadedField(ap.Call.Args[0])
+		_, f2 := loadedField(ap.Call.Args[1])
+		return isSpanField(f1) && isSpanField(f2)
+	}
+	isTrim := func(in ssa.Instruction) bool {
+		st, ok := in.(*ssa.Store)
+		if !ok {
+			return false
+		}
+		fa, ok := st.Addr.(*ssa.FieldAddr)
+		if !ok {
+			return false
+		}
+		if _, f := fieldVarOf(fa); !isSpanField(f) {
+			return false
+		}
+		sl, ok := st.Val.(*ssa.Slice)
+		if !ok || (sl.Low == nil && sl.High == nil) {
+			return false
+		}
+		_, f2 := loadedField(sl.X)
+		return isSpanField(f2)
+	}
+	nDrop, nJoin := 0, 0
+	for _, fn := range buildCallScope(unify).fns {
+		fn := fn
+		name := fnName(fn)
+		allInstrs(fn, func(in ssa.Instruction) {
+			st, ok := in.(*ssa.Store)
+			if !ok {
+				return
+			}
+			// ---- R-JOIN-LAST
+			if isJoin(in) {
+				nJoin++
+				c.sawFn(name)
+				// the innermost loop header around the join
+				var hdr *ssa.BasicBlock
+				for d := st.Block(); d != nil; d = d.Idom() {
+					for _, p := range d.Preds {
+						if d.Dominates(p) {
+							hdr = d
+						}
+					}
+					if hdr != nil {
+						break
+					}
+				}
+				late, wit := reachesWithout(P, st, false, isTrim, func(in2 ssa.Instruction) bool { return hdr != nil && in2.Block() == hdr })
+				c.judge(!late, "R-JOIN-LAST", fmt.Sprintf("%s:join #%d", name, nJoin), st.Pos(), "no span is trimmed after the join in the same iteration", "a span is trimmed after the two boundary context edits have been joined ("+wit+"): the overlap is cut from the end of the joined edit instead of from the duplicated lines in its middle, so line counts still match the ranges but the context lines are wrong")
+				return
+			}
+			// ---- R-DROP-GUARDED
+			fa, ok := st.Addr.(*ssa.FieldAddr)
+			if !ok {
+				return
+			}
+			if _, f := fieldVarOf(fa); !sameField(f, listF) {
+				return
+			}
+			sl, ok := st.Val.(*ssa.Slice)
+			if !ok {
+				return
+			}
+			if _, f2 := loadedField(sl.X); f2 == nil || !sameField(f2, listF) {
+				return
+			}
+			dropFirst := sl.High == nil && isConstInt(sl.Low, 1)
+			dropLast := false
+			if sl.Low == nil && sl.High != nil {
+				if bo, ok := sl.High.(*ssa.BinOp); ok && bo.Op == token.SUB && isConstInt(bo.Y, 1) {
+					if ln, ok := isBuiltinCall(bo.X, "len"); ok {
+						if _, f3 := loadedField(ln.Call.Args[0]); f3 != nil && sameField(f3, listF) {
+							dropLast = true
+						}
+					}
+				}
+			}
+			if !dropFirst && !dropLast {
+				return
+			}
+			nDrop++
+			c.sawFn(name)
+			what := "first"
+			if dropLast {
+				what = "last"
+			}
+			key := fmt.Sprintf("%s:%s edit dropped #%d", name, what, nDrop)
+			justified := ""
+			// a dominating relational test that involves the length of an edit's span (lap >= len(e.X),
+			// len(e.X)-lap <= 0, …) decides whether the whole edit goes
+			var mentionsSpanLen func(v ssa.Value, d int) bool
+			mentionsSpanLen = func(v ssa.Value, d int) bool {
+				if d > 4 {
+					return false
+				}
+				if ln, ok := isBuiltinCall(v, "len"); ok {
+					_, f4 := loadedField(ln.Call.Args[0])
+					return isSpanField(f4)
+				}
+				if bo, ok := v.(*ssa.BinOp); ok && (bo.Op == token.ADD || bo.Op == token.SUB) {
+					return mentionsSpanLen(bo.X, d+1) || mentionsSpanLen(bo.Y, d+1)
+				}
+				return false
+			}
+			for _, cm := range cmpsAt(st.Block()) {
+				switch cm.Op {
+				case token.GEQ, token.GTR, token.LEQ, token.LSS, token.EQL:
+					if mentionsSpanLen(cm.X, 0) || mentionsSpanLen(cm.Y, 0) {
+						justified = "a dominating test on the length of the edit's span decides it"
+					}
+				}
+			}
+			if justified == "" {
+				allInstrs(fn, func(in2 ssa.Instruction) {
+					if isJoin(in2) && dominatesInstr(in2, st) {
+						justified = "its span was appended to the neighbouring edit first"
+					}
+				})
+			}
+			if justified == "" {
+				// a helper whose parameter bounds the edit at every call site is outside this rule's reach: not judged
+				if _, isParam := sl.X.(*ssa.Parameter); isParam {
+					return
+				}
+			}
+			c.judge(justified != "", "R-DROP-GUARDED", key, st.Pos(), justified, "the "+what+" edit of a chunk is removed although nothing bounds its length by the overlap and its lines have not been moved to the neighbouring edit: context lines beyond the overlap vanish from the merged chunk")
+		})
+	}
+}
+
+// ruleEmitRun: (a) an Emit edit's span lhs[S : S+m] has its length m counted by a
+// loop that compares lhs[P+m] with rhs[Q+m]; P must be S — the run is counted
+// where the span starts.  A stale cursor here makes the span too long or
+// splits a run into adjacent Emits.  (b) No Edit is constructed under a
+// condition on a boolean φ of the main loop that no back edge ever resets to
+// false: a "this iteration fused a replace" flag that sticks suppresses every
+// later insertion.
+func ruleEmitRun(c *Ctx, fn *ssa.Function, lhs, rhs *ssa.Parameter) {
+	name := fnName(fn)
+	nRun := 0
+	for _, l := range editLiterals(fn) {
+		k, isK := constInt(l.op)
+		// (b) sticky flags, for every literal
+		if l.blk != nil {
+			for _, f := range factsAt(l.blk) {
+				v := f.Cond
+				for {
+					if u, ok := v.(*ssa.UnOp); ok && u.Op == token.NOT {
+						v = u.X
+						continue
+					}
+					break
+				}
+				ph, ok := v.(*ssa.Phi)
+				if !ok {
+					continue
+				}
+				if b, isB := ph.Type().Underlying().(*types.Basic); !isB || b.Kind() != types.Bool {
+					continue
+				}
+				// the φ-web of the flag: sticky when it goes round a loop, is set to true somewhere, and false
+				// enters only from outside the loop
+				hasBack, setsTrue, resets := false, false, false
+				web := map[*ssa.Phi]bool{}
+				var visit func(p *ssa.Phi)
+				visit = func(p *ssa.Phi) {
+					if web[p] {
+						return
+					}
+					web[p] = true
+					for i, e := range p.Edges {
+						back := p.Block().Dominates(p.Block().Preds[i])
+						if back {
+							hasBack = true
+						}
+						isHeader := false
+						for j := range p.Edges {
+							if p.Block().Dominates(p.Block().Preds[j]) {
+								isHeader = true
+							}
+						}
+						switch x := e.(type) {
+						case *ssa.Const:
+							if x.Value != nil && x.Value.String() == "true" {
+								setsTrue = true
+							} else if !(isHeader && !back) {
+								resets = true // false assigned inside the loop
+							}
+						case *ssa.Phi:
+							visit(x)
+						default:
+							resets = true // recomputed from other values
+						}
+					}
+				}
+				visit(ph)
+				if hasBack {
+					key := fmt.Sprintf("%s:Edit built under loop flag %s", name, ph.Comment)
+					c.judge(!(setsTrue && !resets), "R-EDIT-SPAN", key, l.pos, "the flag is recomputed or cleared every iteration", fmt.Sprintf("an Edit is constructed under the boolean %q, which is set inside the loop and never cleared: after the first time it is set, every later edit guarded by it is suppressed (or forced)", ph.Comment))
+				}
+			}
+		}
+		if !isK || k != '=' {
+			continue
+		}
+		xv, ok := l.set["X"]
+		if !ok {
+			continue
+		}
+		if ct, ok := xv.(*ssa.ChangeType); ok {
+			xv = ct.X
+		}
+		sl, ok := xv.(*ssa.Slice)
+		if !ok || sl.X != ssa.Value(lhs) || sl.Low == nil || sl.High == nil {
+			continue
+		}
+		hi, ok := sl.High.(*ssa.BinOp)
+		if !ok || hi.Op != token.ADD {
+			continue
+		}
+		var m ssa.Value
+		switch {
+		case hi.X == sl.Low || sym(hi.X) == sym(sl.Low):
+			m = hi.Y
+		case hi.Y == sl.Low || sym(hi.Y) == sym(sl.Low):
+			m = hi.X
+		default:
+			continue
+		}
+		if _, isPhi := m.(*ssa.Phi); !isPhi {
+			continue
+		}
+		// the counting loop: an index lhs[P+m]
+		allInstrs(fn, func(in ssa.Instruction) {
+			ia, ok := in.(*ssa.IndexAddr)
+			if !ok || ia.X != ssa.Value(lhs) {
+				return
+			}
+			bo, ok := ia.Index.(*ssa.BinOp)
+			if !ok || bo.Op != token.ADD {
+				return
+			}
+			var p ssa.Value
+			switch {
+			case bo.Y == m:
+				p = bo.X
+			case bo.X == m:
+				p = bo.Y
+			default:
+				return
+			}
+			nRun++
+			c.sawFn(name)
+			c.judge(p == sl.Low || sym(p) == sym(sl.Low), "R-EDIT-SPAN", fmt.Sprintf("%s:Emit run counted from the span's start #%d", name, nRun), ia.Pos(), "the run is counted from the offset the Emit span starts at",
+				fmt.Sprintf("the run of kept elements is counted from %s, but the Emit span starts at %s: when the two differ (a cursor not advanced on some path) the span covers the wrong elements or a run is split into adjacent Emit edits", ksym(p), ksym(sl.Low)))
+		})
 	}
 }
